@@ -6,7 +6,7 @@
    exceptional exit satisfies E.  `unchanged h h'` = every cell of every block, the set of live blocks, their
    sizes and all data-member registers are exactly as before (strong guarantee incl. "nothing leaked"). *)
 From Coq Require Import List Arith Lia Bool.
-From C04 Require Import Effects ObjMgr ArrayData Ctor KeyValue.
+From C04 Require Import Effects ObjMgr ArrayData Ctor KeyValue Tree.
 Import ListNotations.
 
 (* ObjectManager::RelocateExec (both overloads of pvRelocateExec, ObjectManager.h:508-535), for every element
@@ -225,3 +225,22 @@ Theorem bucket_add_guard :
        (fun s' => same_res (hp s) (hp s')).
 Proof. exact bucket_add_spec. Qed.
 Print Assumptions bucket_add_guard.
+
+(* TreeNode::pvRemove for continuous nodes (details/TreeNode.h:332-347): the removed item is rotated to the end with
+   ShiftNothrow, the remover runs on it; if the remover throws the rotation is undone -> the node is exactly as before.
+   Every index, every number of items behind it, every remover that is all-or-nothing on the rotated item. *)
+Theorem node_remove_shiftback :
+  forall items tmp index shift remover fp P R s,
+    exec_spec remover fp P R ->
+    (forall p, index <= p <= index + shift -> valid (hp s) (items p) = true /\ exists v, mem (hp s) (items p) = Live v) ->
+    valid (hp s) tmp = true -> mem (hp s) tmp = Raw ->
+    (forall p q, index <= p <= index + shift -> index <= q <= index + shift -> p <> q -> items p <> items q) ->
+    (forall p, index <= p <= index + shift -> items p <> tmp) ->
+    (forall l, fp l -> l <> tmp /\ forall p, index <= p < index + shift -> items p <> l) ->
+    (forall h', agree (fun l => l <> tmp /\ forall p, index <= p <= index + shift -> items p <> l) (hp s) h' ->
+                mem h' (items (index + shift)) = mem (hp s) (items index) -> P h') ->
+    wp (node_remove items tmp index shift remover) s
+       (fun _ s' => forall p, index <= p < index + shift -> mem (hp s') (items p) = mem (hp s) (items (S p)))
+       (fun s' => unchanged (hp s) (hp s')).
+Proof. exact node_remove_spec. Qed.
+Print Assumptions node_remove_shiftback.
